@@ -45,13 +45,21 @@ CLAUSES = {
         "proved (checksum_eq_core, polymod_eq_core, charsets_eq_core); Spec through the driver on every run",
     "descriptor text wsh(sortedmulti(m,[fp/path]xpub/acct/*,…))": "correspondence-only (text layout compared with the real "
         "str() on every run; descriptor_text_layout states the layout of the model)",
-    "parse(str d) = d": "correspondence-only (regexes modelled by hand-written matchers, compared with the real parse on valid, "
-        "corrupted and reordered texts; direct round-trip predicate on the implementation)",
+    "parse(str d) = d": "proved (parse_str_roundtrip, with full_key_record_child_check and descriptor_regex_on_generated_text) "
+        "for every descriptor the constructor returns that satisfies ReprWF = what parse insists on and the constructor does not "
+        "check: m ≤ n, fingerprints in lower-case hex, paths written m/… without ] , ( ) * \\ or newline, derivable account "
+        "children.  The two regular expressions are the hand-written matchers; the theorem is about the emitted text layout "
+        "(descriptor_text_layout), and the matchers are compared with Python's re.match on the source patterns on every run "
+        "(ops match_desc / match_kr).  Outside ReprWF the round trip really fails as coded (e.g. xfp 'ABCDEF12', path 'M/…', "
+        "m > n): observation O16b, compared by correspondence",
     "single-character substitution in the body is detected":
-        "proved for the checksum function (checksum_detects_substitution: any two bodies of equal length over the charset "
-        "differing in exactly one position have different checksums; polymod_detects_window: differences confined to 8 "
-        "consecutive symbols); the step from there to `parse` refusing the text is correspondence + the exhaustive "
-        "substitution predicate on the real parse",
+        "proved (checksum_detects_substitution: any two bodies of equal length over the charset differing in exactly one "
+        "position have different checksums; polymod_detects_window; and about parse itself: parse_checksum_checked — every "
+        "descriptor parse returns carries the recomputed checksum of its regenerated text — and "
+        "parse_detects_body_substitution / parse_detects_checksum_substitution — no input makes parse return a descriptor whose "
+        "text#checksum is a one-character variant of a correctly checksummed one).  Not covered by a theorem: a parse that "
+        "normalises the altered body into another text (xpub version bytes, text before wsh() which would itself have to carry "
+        "the old checksum; the exhaustive substitution predicate on the real parse covers it",
     "substitution in the 8 checksum characters is detected": "proved (construct_checksum_mismatch_rejected, construct_checksum_accept)",
     "N16a (replacing the # separator)": "not an alteration of body or checksum: the regex drops the checksum group and the unaltered "
         "body parses to the same descriptor; predicate `substitution` checks exactly that at the # position",
